@@ -84,6 +84,15 @@ def st_case(draw, tier):
         order = 1
     if size >= 9:
         order = min(order, 0 if tier == "quick" else 1)
+    if draw(st.integers(0, 9)) == 0:
+        # Taylor recipe of S^-1/2 = (1 + sum_n S^(n))^-1/2: cheap at any
+        # order, checked with non-commuting matrices far beyond the orders
+        # whose overlaps can be derived
+        return {"variant": variant, "sub": "s_taylor",
+                "singles": draw(st.booleans()), "part": "mp",
+                "order": draw(st.integers(0, 9)),
+                "min_order": draw(st.sampled_from([1, 2, 2, 2, 3])),
+                "mseed": draw(st.integers(0, 2**31))}
     i1, i2 = draw(st_idx(sp1, sp2))
     return {"variant": variant, "sp1": sp1, "sp2": sp2, "order": order,
             "singles": draw(st.booleans()),
@@ -109,6 +118,18 @@ def excitation_ops(sp_syms, assign):
 def run_case(case):
     r = R()
     isr = isr_obj(case["variant"], case["part"], case["singles"])
+    if case.get("sub") == "s_taylor":
+        n, mo = case["order"], case["min_order"]
+        r.sample = (f"IntermediateStates({case['variant']}).expand_S_taylor("
+                    f"{n}, {mo})")
+        ok, rec = lib_call(r, "expand_S_taylor", isr.expand_S_taylor, n, mo)
+        if ok:
+            msg = common.check_taylor_recipe(rec, n, mo, -1, case["mseed"])
+            if msg:
+                r.fail("s_taylor_recipe", f"{r.sample}: {msg}")
+        r.nontrivial = n >= 2 * mo
+        r.cls("s_taylor_recipe", f"order={n}")
+        return r
     sp1, sp2, order = case["sp1"], case["sp2"], case["order"]
     I = get_symbols(case["i1"])
     J = get_symbols(case["i2"])
